@@ -161,15 +161,15 @@ theorem chainGo_line : ∀ (genes : List Gene) (results : List GeneResult) (live
       rw [hb] at hb'; injection hb' with hb'; subst hb'
       rw [hb]
       simp only
-      have hentry : entry ⟨g.name, g.strand, g.region, ms, g.index⟩ = kentry g := by
+      have hentry : entry ⟨g.name, g.strand, g.region, ms, g.index, ms.isEmpty⟩ = kentry g := by
         unfold entry kentry; simp only; rw [hflat, kept_eq]
       -- the plain "append the new gene" continuation
-      have plain : ∃ out, chainGo rest (results ++ [⟨g.name, g.strand, g.region, ms, g.index⟩]) true = .ok out
+      have plain : ∃ out, chainGo rest (results ++ [⟨g.name, g.strand, g.region, ms, g.index, ms.isEmpty⟩]) true = .ok out
           ∧ (∀ r ∈ out, ∀ m ∈ r.modules, Good m)
           ∧ out.map hdr = results.map hdr ++ ghdr g :: (rest.filter liveGene).map ghdr
           ∧ ∀ acc, lineGo (out.map entry) acc
               = lineGo (results.map entry ++ kentry g :: (rest.filter liveGene).map kentry) acc := by
-        have happ : ∀ r ∈ results ++ [(⟨g.name, g.strand, g.region, ms, g.index⟩ : GeneResult)], ∀ m ∈ r.modules, Good m := by
+        have happ : ∀ r ∈ results ++ [(⟨g.name, g.strand, g.region, ms, g.index, ms.isEmpty⟩ : GeneResult)], ∀ m ∈ r.modules, Good m := by
           intro r hrm
           rcases List.mem_append.mp hrm with h | h
           · exact hr r h
@@ -200,14 +200,14 @@ theorem chainGo_line : ∀ (genes : List Gene) (results : List GeneResult) (live
                                    :: (isReverse g.strand, im.flatMap (·.components)) :: post) acc
                          = lineGo (entry prev :: kentry g :: post) acc) →
               ∃ out, chainGo rest (results.dropLast ++ [{ prev with modules := pm },
-                                      { (⟨g.name, g.strand, g.region, ms, g.index⟩ : GeneResult) with modules := im }]) true = .ok out
+                                      { (⟨g.name, g.strand, g.region, ms, g.index, ms.isEmpty⟩ : GeneResult) with modules := im }]) true = .ok out
                 ∧ (∀ r ∈ out, ∀ m ∈ r.modules, Good m)
                 ∧ out.map hdr = results.map hdr ++ ghdr g :: (rest.filter liveGene).map ghdr
                 ∧ ∀ acc, lineGo (out.map entry) acc
                     = lineGo (results.map entry ++ kentry g :: (rest.filter liveGene).map kentry) acc := by
             intro pm im hpmg himg hline
             have hgood : ∀ r ∈ results.dropLast ++ [{ prev with modules := pm },
-                { (⟨g.name, g.strand, g.region, ms, g.index⟩ : GeneResult) with modules := im }], ∀ m ∈ r.modules, Good m := by
+                { (⟨g.name, g.strand, g.region, ms, g.index, ms.isEmpty⟩ : GeneResult) with modules := im }], ∀ m ∈ r.modules, Good m := by
               intro x hx
               rcases List.mem_append.mp hx with h | h
               · exact hdl x h
